@@ -625,6 +625,9 @@ func (c *Cluster) mutToken(b *Bucket, vb int, seq uint64) []byte {
 // appendKVItem puts a KV write into the vBucket's item log (so library writes come back over DCP).
 func (c *Cluster) appendKVItem(b *Bucket, vb int, kind string, key []byte, d *Doc) uint64 {
 	v := b.vbs[vb]
+	if v.high >= 1<<64-2 {
+		return v.high // the top of the seqno range (boundary scenarios only): the write is not logged
+	}
 	v.high++
 	it := Item{Seq: v.high, Kind: kind, Key: append([]byte{}, key...), Val: d.body, Cas: d.cas, Rev: d.rev, Flags: d.flags, Datatype: uint8(memd.DatatypeFlagJSON)}
 	if kind != "mut" {
